@@ -127,7 +127,7 @@ def drive_b(rec, part, count):
         label = "vmp %s N=%d mask=%d nrows=%d ncols=%d a_size=%d res_size=%d (dense)" % (entry, n, mask, nrows, ncols, a_size, rs)
         if not rec.progress(label):
             continue
-        got, why = vmp_run(L, mods[(n, mask)], n, mat, nrows, ncols, a, rs, entry, rng, a_pad=rng.choice([0, 3]))
+        got, why = vmp_run(L, mods[(n, mask)], n, mat, nrows, ncols, a, rs, entry, rng, a_pad=rng.choice([0, 3]), off=rng.choice([0, 8, 16, 24]))
         rec.case(("B", entry, mask, n, min(nrows, 4), min(ncols, 4), min(a_size, 5), min(rs, 5)), nontrivial=rs > 0)
         if got is None:
             rec.violation(label + ": " + why, {"N": n, "nrows": nrows, "ncols": ncols, "a_size": a_size, "res_size": rs})
